@@ -110,16 +110,32 @@ func queries() []lookup.Query {
 }
 
 func options(n int) []lookup.Opts {
-	t1 := model.T1
+	t1, t2 := model.T1, model.T2
+	lf := func(o lookup.Opts) lookup.Opts { o.FilterOp, o.FilterField = filter.Latest, filter.PredicateField; return o }
+	// the default, every single non-default field, and pairs of them (two option values that differ in one
+	// field while another one is set must still be different keys)
 	o := []lookup.Opts{
 		{},
 		{MaxElements: 1, Offset: 0},
 		{MaxElements: 1, Offset: 1},
 		{MaxElements: 1, Offset: 2},
 		{Upper: &t1},
-		{FilterOp: filter.Latest, FilterField: filter.PredicateField},
+		lf(lookup.Opts{}),
 		{LatestAnchor: true},
 		{MaxElements: 2, Offset: 1},
+		{LatestAnchor: true, Upper: &t1},
+		{Lower: &t2},
+		{Lower: &t1, Upper: &t1},
+		lf(lookup.Opts{Upper: &t1}),
+		{LatestAnchor: true, Lower: &t2},
+		{MaxElements: 1, Upper: &t1},
+		{MaxElements: 1, LatestAnchor: true},
+		lf(lookup.Opts{MaxElements: 1}),
+		lf(lookup.Opts{Lower: &t2}),
+		{MaxElements: 1, Lower: &t2},
+	}
+	if n > len(o) {
+		n = len(o)
 	}
 	return o[:n]
 }
@@ -641,7 +657,7 @@ func main() {
 	r.Assume("model states (content, per handle the cache-filling events since its last write; h2/h3 interchangeable) are used only to deduplicate; every state's shortest path is replayed on a fresh store, wrapper and handles")
 	r.Assume("answers are compared as sequences of structural keys, error text and channel-closed flag")
 
-	nopts := r.Pick(6, 8)
+	nopts := r.Pick(10, 18)
 	reads := grid(nopts)
 	tt := buildTruth(reads)
 	mk := modKeys(reads)
